@@ -78,7 +78,7 @@ def riscv_cases(ctx, classes):
         inp = f.get("input") or {}
         if isinstance(inp, dict) and inp.get("isa") == "riscv":
             cases.append((inp["cls"], inp["a"], inp["b"], inp["c"], inp["imm"]))
-    nreg = 4000 if ctx.thorough else 40
+    nreg = 4000 if ctx.thorough else 24
     for name in classes:
         doms, immd = rvlib.domain(name)
         nfree = len([d for d in doms if d != "=0"])
@@ -239,7 +239,7 @@ def shift_big(l):
 
 def validate_spec(ctx, real_encodings):
     rng = ctx.rng
-    n = 60000 if ctx.thorough else 4000
+    n = 60000 if ctx.thorough else 2500
     words32, words16 = [], []
     for bs in real_encodings:
         (words32 if len(bs) == 4 else words16).append(bytes(bs))
